@@ -53,6 +53,9 @@ pub fn check_value(origin: &str, v: &Version, loose: bool, st: &mut Stats) -> Re
     if !same5(v, &w) {
         return Err(Failure::new("roundtrip-changes-fields", format!("{}: {} prints as {:?} which parses to {}", origin, fields_text(v), p, fields_text(&w))));
     }
+    if let Err(m) = display_survives_failing_writer(v, &p) {
+        return Err(Failure::new("display-depends-on-history", format!("{}: {}", origin, m)));
+    }
     let p2 = w.to_string();
     if p2 != p {
         return Err(Failure::new("print-not-fixed-point", format!("{}: prints {:?}, re-parsed value prints {:?}", origin, p, p2)));
@@ -71,6 +74,22 @@ pub fn check_value(origin: &str, v: &Version, loose: bool, st: &mut Stats) -> Re
             }
         }
         Err(e) => return Err(Failure::new("serde-roundtrip-fails", format!("{}: {} does not deserialize: {}", origin, js, e))),
+    }
+    // the same JSON through the other front ends of serde_json: a Value tree, a reader, and text
+    // in which every character is \u-escaped (none of them can lend a borrowed &str)
+    let val = serde_json::to_value(v).map_err(|e| Failure::new("serde-serialize-fails", format!("{}: to_value: {}", origin, e)))?;
+    let escaped = format!("\"{}\"", p.chars().map(|c| format!("\\u{:04x}", c as u32)).collect::<String>());
+    let routes: Vec<(&str, Result<Version, serde_json::Error>)> = vec![
+        ("from_value", serde_json::from_value::<Version>(val)),
+        ("from_reader", serde_json::from_reader::<_, Version>(js.as_bytes())),
+        ("from_str(escaped)", serde_json::from_str::<Version>(&escaped)),
+    ];
+    for (route, r) in routes {
+        match r {
+            Ok(d) if same5(v, &d) => {}
+            Ok(d) => return Err(Failure::new("serde-roundtrip-changes-fields", format!("{}: via {}: {} -> {}", origin, route, fields_text(v), fields_text(&d)))),
+            Err(e) => return Err(Failure::new("serde-roundtrip-fails", format!("{}: serde_json::{} of {} fails: {}", origin, route, js, e))),
+        }
     }
     st.eval(3);
     if v.is_prerelease() || !v.build.is_empty() || loose {
